@@ -11,7 +11,7 @@ use proptest::collection::vec;
 use proptest::prelude::*;
 use serde::{Deserialize, Serialize};
 use similar::algorithms;
-use similar::{capture_diff_deadline, capture_diff_slices_deadline, DiffOp, TextDiff};
+use similar::{capture_diff_deadline, capture_diff_slices_deadline, TextDiff};
 use std::time::{Duration, Instant};
 
 pub struct C07;
@@ -104,6 +104,9 @@ fn check_case(case: &Case, obs: &mut Obs) -> Verdict {
         };
         if let Err(msg) = validate_raw(&ev, c.old_r(), c.new_r(), &eq) {
             return Verdict::Fail(format!("{} with expiry at probe {} of {}: stream {:?}: {}", name, k, t, ev, msg));
+        }
+        if n + m > 0 {
+            obs.metric("post-expiry comparisons / (N+M)", post as f64 / (n + m) as f64);
         }
         if post > bound {
             return Verdict::Fail(format!(
